@@ -369,22 +369,31 @@ func c07DiffKinds(a, b string) (string, []string) {
 		}
 		return "text: " + c07Norm(firstLines(u.text, 1))
 	}
+	// units deleted from a / inserted into b by a minimal edit script (Myers): these are the units
+	// that changed or moved. (Comparing position by position, or multisets only, either drowns the
+	// result in shifted lines or lets a content difference hide a reordering of other messages.)
 	what := "order"
-	for _, us := range [][]c07Unit{ua, ub} {
-		for _, u := range us {
-			if count[u.text] != 0 {
-				what = "content"
-				kinds[kindOf(u)] = true
-			}
+	for _, c := range count {
+		if c != 0 {
+			what = "content"
 		}
 	}
-	if what == "order" {
-		for i := range ua {
-			if i < len(ub) && ua[i].text != ub[i].text {
-				kinds[kindOf(ua[i])] = true
-				kinds[kindOf(ub[i])] = true
-			}
-		}
+	ta, tb := make([]string, len(ua)), make([]string, len(ub))
+	for i, u := range ua {
+		ta[i] = u.text
+	}
+	for i, u := range ub {
+		tb[i] = u.text
+	}
+	da, ib, ok := c07Myers(ta, tb, 1500)
+	if !ok {
+		kinds["text: more than 1500 differing units"] = true
+	}
+	for _, i := range da {
+		kinds[kindOf(ua[i])] = true
+	}
+	for _, i := range ib {
+		kinds[kindOf(ub[i])] = true
 	}
 	// the summary line is a function of the number of diagnostic lines: when the multisets of
 	// diagnostics differ, a different summary is a consequence, not a difference of its own
@@ -402,10 +411,86 @@ func c07DiffKinds(a, b string) (string, []string) {
 		}
 	}
 	ks := sortedKeys(kinds)
-	if len(ks) > 6 {
-		ks = ks[:6]
+	if len(ks) > 12 {
+		ks = ks[:12]
 	}
 	return what, ks
+}
+
+// c07Myers: indices of a that a shortest edit script deletes and indices of b that it inserts
+// (greedy O((N+M)D) algorithm of Myers 1986 after trimming the common prefix and suffix).
+func c07Myers(a, b []string, maxD int) (del, ins []int, ok bool) {
+	pre := 0
+	for pre < len(a) && pre < len(b) && a[pre] == b[pre] {
+		pre++
+	}
+	suf := 0
+	for suf < len(a)-pre && suf < len(b)-pre && a[len(a)-1-suf] == b[len(b)-1-suf] {
+		suf++
+	}
+	a2, b2 := a[pre:len(a)-suf], b[pre:len(b)-suf]
+	n, m := len(a2), len(b2)
+	if n == 0 || m == 0 {
+		for i := 0; i < n; i++ {
+			del = append(del, pre+i)
+		}
+		for j := 0; j < m; j++ {
+			ins = append(ins, pre+j)
+		}
+		return del, ins, true
+	}
+	off := maxD + 1
+	v := make([]int, 2*off+1)
+	var trace [][]int
+	found := -1
+	for d := 0; d <= maxD && d <= n+m && found < 0; d++ {
+		trace = append(trace, append([]int{}, v...))
+		for k := -d; k <= d; k += 2 {
+			var x int
+			if k == -d || (k != d && v[off+k-1] < v[off+k+1]) {
+				x = v[off+k+1]
+			} else {
+				x = v[off+k-1] + 1
+			}
+			y := x - k
+			for x < n && y < m && a2[x] == b2[y] {
+				x++
+				y++
+			}
+			v[off+k] = x
+			if x >= n && y >= m {
+				found = d
+				break
+			}
+		}
+	}
+	if found < 0 {
+		return nil, nil, false
+	}
+	x, y := n, m
+	for d := found; d > 0; d-- {
+		vd := trace[d]
+		k := x - y
+		var pk int
+		if k == -d || (k != d && vd[off+k-1] < vd[off+k+1]) {
+			pk = k + 1
+		} else {
+			pk = k - 1
+		}
+		px := vd[off+pk]
+		py := px - pk
+		for x > px && y > py { // snake
+			x--
+			y--
+		}
+		if x == px { // insertion of b2[py]
+			ins = append(ins, pre+py)
+		} else { // deletion of a2[px]
+			del = append(del, pre+px)
+		}
+		x, y = px, py
+	}
+	return del, ins, true
 }
 
 type c07Diff struct{ what, kind string }
@@ -558,10 +643,9 @@ func runC07(ctx *Ctx) *Result {
 			}
 		}
 		for k := 1; k < len(outs); k++ {
-			if !outs[0].same(outs[k]) {
+			if !outs[0].same(outs[k]) { // every differing pair: another pair may show another kind
 				unstable[ci] = true
 				c07ReportNondet(ctx, res, c, outs[0], outs[k], "fresh processes")
-				break
 			}
 		}
 		res.Count("option-set."+strings.Join(c.Args[:imin(len(c.Args), 5)], " "), 1)
